@@ -445,7 +445,9 @@ impl Report {
             let mut reported = false;
             let mut last: Option<String> = None;
             // runs that involved real locks replay with probability < 1: several attempts each
-            let racy = v.replay.get("lock_handoffs").and_then(|x| x.as_u64()).unwrap_or(0) > 0;
+            // (also runs that observe the real OS-seeded generator: their schedule depends on entropy the
+            // simulator does not own; their plans say "probabilistic")
+            let racy = v.replay.get("lock_handoffs").and_then(|x| x.as_u64()).unwrap_or(0) > 0 || v.replay.get("probabilistic").and_then(|x| x.as_bool()).unwrap_or(false);
             let attempts = if racy { 4 } else { 1 };
             let ncand = candidates.len();
             for (ci, cand) in candidates.into_iter().enumerate() {
@@ -487,12 +489,12 @@ impl Report {
                     // holder blocked and the baton was handed on): the failure is genuine, the schedule is
                     // not bit-exact, and this file reproduces it only with some probability.
                     if let Value::Object(m) = &mut doc {
-                        m.insert("note".into(), json!("observed once in a run that blocked on locks of the code under test; its schedule is not bit-exact, so this file reproduces the violation with probability < 1 (it did not in the confirmation attempts)"));
+                        m.insert("note".into(), json!("observed once in a run whose schedule is not bit-exact by construction (it blocked on locks of the code under test, or it used the real OS-seeded generator); this file reproduces the violation with probability < 1 (it did not in the confirmation attempts)"));
                     }
                     let _ = std::fs::write(&path, serde_json::to_string_pretty(&doc).unwrap());
                     println!("VIOLATION property={} replay={}", v.property, path.display());
                     println!("  class: {}", v.class);
-                    println!("  detail: {} (schedule involved real locks; replay is probabilistic)", v.detail);
+                    println!("  detail: {} (schedule not bit-exact: real locks or real entropy; replay is probabilistic)", v.detail);
                     new_violations += 1;
                     reported = true;
                 }
